@@ -23,6 +23,18 @@ alias/indices, unused design variable, response without design variable; group_b
     ScipyOptimizeDriver(SLSQP).run_driver(): success flag, design variables, objective and ALL model outputs
     (pre/post/dead-end components included) compared twin-on == twin-off, with the exact optimum of the QP
     (KKT enumeration, omv/ref/qp.py) and with closed-form values of the pre/post components at the final design.
+
+Family `coupled` (one linear ImplicitComponent  M y - N x - c = 0  whose residuals couple its outputs y0,y1,y2 - only the
+non-zero blocks are declared as partials - followed by an explicit component; control shape `none` = uncoupled):
+    values and totals compared twin-on == twin-off == exact M^-1 N.
+
+Besides values, a solver that reports non-convergence ONLY in the enabled twin is a violation (observable: failure
+message, wasted iterations, AnalysisError under err_on_non_converge=True); such failures are classified by the seed that
+was active (`dead-seed`: the seed has no counterpart in the jacobian being computed; `live-seed:mixed-stack` /
+`live-seed:uniform-stack`) so that each mechanism has its own key.
+
+thorough tier additionally runs a few disabled twins in a subprocess with the documented switch
+OPENMDAO_NO_RELEVANCE=1 (omv/kit/c24_child.py) and requires the in-process way of disabling to agree with it.
 """
 import copy
 import json
@@ -46,11 +58,12 @@ RULE = ('totals family: two random G specs merged into one model (disjoint cones
         'cells {fwd,rev} x root linear solver {generated,runonce,lnbgs,lnbj,krylov,direct} x API {explicit of/wrt, '
         'declared desvars/responses with indices/alias/linear/pdc/cache_linear_solution + Driver._compute_totals}; '
         'opt family: random strictly convex QP through linear component chain (optional linear cycle), pre/post '
-        'components, SLSQP.  distinct = fingerprint(model features, solver stack, cell, plan shape); non-trivial = '
+        'components, SLSQP; coupled family: linear implicit component with random block coupling pattern + explicit '
+        'follower x root/sub-group linear solver x mode.  distinct = fingerprint(model features, solver stack, cell, plan shape); non-trivial = '
         'relevance answered "irrelevant" at least once in the enabled twin (something was really pruned) and all '
         'solvers reported convergence')
 MIN_JUDGED = {'quick': 60, 'thorough': 1500}
-REQUIRED_COUNTERS = ['obs:systems-pruned', 'obs:vars-pruned', 'obs:linearize-calls-saved', 'obs:twin-off-verified',
+REQUIRED_COUNTERS = ['obs:coupled-twins', 'cell:coupled-shape=none', 'cell:coupled-shape=chain', 'obs:systems-pruned', 'obs:vars-pruned', 'obs:linearize-calls-saved', 'obs:twin-off-verified',
                      'obs:totals-on-vs-off', 'obs:totals-vs-reference', 'obs:values-on-vs-off',
                      'obs:driver-totals', 'obs:lincon-totals', 'obs:declared-totals', 'obs:explicit-totals',
                      'obs:disjoint-cones', 'obs:cyclic-model', 'obs:zero-blocks',
@@ -58,13 +71,14 @@ REQUIRED_COUNTERS = ['obs:systems-pruned', 'obs:vars-pruned', 'obs:linearize-cal
                      'obs:opt-pre-post-grouping', 'obs:opt-linear-constraint', 'obs:opt-cycle',
                      'cell:mode=fwd', 'cell:mode=rev', 'cell:ln=generated', 'cell:ln=runonce', 'cell:ln=lnbgs',
                      'cell:ln=lnbj', 'cell:ln=krylov', 'cell:ln=direct']
-ASSUMPTIONS = ['the relevance-disabled twin is the baseline: `_no_relevance=True` while the twin is built, set up and '
+ASSUMPTIONS = ['a solver failure reported only by the relevance-enabled twin counts as an observable difference',
+               'the relevance-disabled twin is the baseline: `_no_relevance=True` while the twin is built, set up and '
                'used; verified per twin (pruning counters stay 0, model._relevance._active is False)',
                'R (omv/ref/flatmodel.py) is exact (re-validated by complex step per case); cases where the DISABLED '
                'twin disagrees with R are other properties\' territory (C01) and are not judged here',
-               'cases where any solver reports non-convergence in either twin, or cond(dF/du) >= 1e6, are not judged',
+               'cases where a solver reports non-convergence in the DISABLED twin, or cond(dF/du) >= 1e6, are not judged',
                'optimizer twins are judged only if the disabled twin reports success and reaches the exact QP optimum '
-               'to 1e-7 (validated baseline); no MPI (parallel_deriv_color is declared but has no parallel effect)']
+               'to 5e-7 (validated baseline); no MPI (parallel_deriv_color is declared but has no parallel effect)']
 SHARD_TIMEOUT = {'quick': 1500, 'thorough': 5400}
 
 OPTS = dict(p_index=0.45, p_units=0.3, p_chain2=0.25, p_param=0.3, p_matfree=0.12, p_sparse=0.5, p_cycle=0.4,
@@ -79,7 +93,7 @@ def shards(tier, seed):
     if tier == 'quick':
         n, nt, no = 16, 3, 4
     else:
-        n, nt, no = 64, 18, 24
+        n, nt, no = 64, 6, 8
     n = int(os.environ.get('OMV_C24_NSHARDS', n))      # development aid (sensitivity runs on a loaded machine)
     out = []
     for i in range(n):
